@@ -321,8 +321,10 @@ def ref_apply(P, f, st, opts):
             if fn == 'SIGMOID' or div == 0 or not all(small_dyadic(q) for q in (
                     (c - icpt) / slope, (c - Fraction(1, 2) - icpt) / slope, w / slope, div, (hi - lo) / div)):
                 info['exact'] = False
-            if (fn == 'LINEAR' and w <= 1) or w <= 0:
+            if (fn == 'LINEAR' and w < 1) or w <= 0:
                 return ('skip', 'degenerate window width')
+            if fn == 'LINEAR' and w == 1:
+                info['unit_linear_window'] = True
             if div != 0:
                 # float32 outputs are computed in float32: the subtraction stored - window start cancels, its rounding
                 # error is scaled by range / width.  Slack for that (absolute), used for float32 comparisons only.
@@ -494,12 +496,15 @@ def gen_lut(r, bits, first_range, max_len=12, pow2_range=False):
     return {'first': first, 'bits': bits, 'data': data}
 
 
-def gen_window(r, m, b, nwin, fn):
-    """windows whose folding through slope m / intercept b is exact in binary floating point"""
+def gen_window(r, m, b, nwin, fn, allow_unit=False):
+    """windows whose folding through slope m / intercept b is exact in binary floating point;
+    `allow_unit`: a few LINEAR windows of width exactly 1 (open finding C06-linear-width-one)"""
     cs, ws, us = [], [], []
     for _ in range(nwin):
         odd = r.choice([1, 1, 1, 3, 5, 7])
         u = Fraction(odd) * Fraction(2) ** r.randint(-2, 7)        # |effective divisor|
+        if allow_unit and fn in (None, 'LINEAR') and r.random() < 0.1:
+            u = Fraction(0)
         v = dyadic(r, -40, 300, 4)                                   # effective centre term
         if fn in (None, 'LINEAR'):
             w = 1 + abs(m) * u
@@ -590,12 +595,19 @@ def gen_pipeline_case(r, idx):
             with_expl = r.random() < 0.5
 
             def mkwin():
-                cs, ws, _ = gen_window(r, m, b, nwin, fn)
+                cs, ws, _ = gen_window(r, m, b, nwin, fn, allow_unit=True)
                 w = {'c': cs, 'w': ws, 'fn': fn}
                 if with_expl:
                     w['expl'] = r.sample(EXPL, nwin)
                 return w
             place('window', mkwin)
+            for e in T['window']:
+                for wv in e['vals']:
+                    for cc, ww in zip(wv['c'], wv['w']):
+                        if F(ww) == 1:          # the step of a unit-width LINEAR window
+                            s0 = (F(cc) - Fraction(1, 2) - b) / m
+                            if s0.denominator == 1:
+                                interesting += [int(s0) - 1, int(s0), int(s0), int(s0) + 1]
         if vk in ('lut', 'both'):
             nl = r.choice([1, 1, 2, 3])
             luts = []
@@ -1047,6 +1059,8 @@ def model_params(P, f, opts):
             cw = select_window(win, sel)
             if cw is None:
                 return None
+            if (win.get('fn') or 'LINEAR') == 'LINEAR' and cw[1] == 1:
+                return None        # numpy's inf / nan arithmetic at width 1 has no counterpart over Rat (open finding)
             present['voi'] = True
             out['voi'] = {'k': 'window', 'fn': win.get('fn') or 'LINEAR', 'c': fs(cw[0]), 'w': fs(cw[1])}
     present['icc'] = bool(T.get('icc'))
@@ -1806,3 +1820,30 @@ def shrink(ctx, failure):
                 best = g
                 break
     return best
+
+
+def _own_open_findings():
+    import json
+    import os
+    path = os.path.join(os.path.dirname(os.path.dirname(os.path.dirname(os.path.abspath(__file__)))), 'findings', 'C06.json')
+    try:
+        return [f for f in json.load(open(path)) if f.get('status') == 'open']
+    except Exception:  # noqa: BLE001
+        return []
+
+
+def attribute(failure, open_findings):
+    """C06-linear-width-one: a failure of a pipeline case whose window in force is LINEAR with width exactly 1"""
+    ids = {f['id'] for f in list(open_findings) + _own_open_findings()}
+    if 'C06-linear-width-one' not in ids:
+        return None
+    case = failure.get('case') or {}
+    if case.get('stream') != 'pipe' or 'P' not in case or not str(failure.get('site', '')).startswith('get_frame/'):
+        return None
+    P, flags, opts = case['P'], case['flags'], case['opts']
+    frames = range(len(P['frames'])) if case.get('frame') == 'all' else [case['frame']]
+    for f in frames:
+        ref = ref_frame(P, f, flags, opts)
+        if ref[0] == 'ok' and ref[2].get('unit_linear_window'):
+            return 'C06-linear-width-one'
+    return None
